@@ -38,6 +38,10 @@ def arrays_for(case, dtype=np.float64):
             idx = np.indices(s) if len(s) else np.zeros((0,))
             par = sum(idx[k] for k in range(len(s)) if k != d) % 2 if len(s) else 0
             out.append(np.asarray(a + 900.0 * par, dtype=dtype))
+        elif p == "masked_last":
+            # logits / log-probabilities whose last class is masked out with -inf (never the target class in the cases using it)
+            a = np.asarray(values.generic(s, salt=7 * i) * 2.0, dtype=dtype); a[..., -1] = -np.inf
+            out.append(a)
         elif p == "logits":
             out.append(np.asarray(values.generic(s, salt=7 * i) * 2.0, dtype=dtype))
         elif p == "var":
@@ -359,6 +363,11 @@ def cases(tier, what="forward"):
             for code in range(C ** N):
                 lab = f"labels:{C}:{code}"
                 add("nll", [(N, C), (N,)], pats=["logits", lab]); add("ce", [(N, C), (N,)], pats=["logits", lab])
+                if fw and code == 0 and C >= 2:       # a masked (-inf) class that is not the target: the loss stays finite
+                    for r in reds:
+                        add("nll", [(N, C), (N,)], {"reduction": r}, pats=["masked_last", lab], form="layer")
+                        add("ce", [(N, C), (N,)], {"reduction": r}, pats=["masked_last", lab], form="layer")
+                    add("nll", [(N, C), (N,)], pats=["masked_last", lab]); add("ce", [(N, C), (N,)], pats=["masked_last", lab])
                 if code % 3 == 0 or fw:
                     for r in reds:
                         add("nll", [(N, C), (N,)], {"reduction": r}, pats=["logits", lab], form="layer")
